@@ -54,6 +54,9 @@ class BaseInterval(ABC):
             The transformed values.
         """
         vmin, vmax = self.get_limits(values)
+        # integer limits (np.min of an integer array, a Python int) would keep the arithmetic
+        # below in the array's integer dtype, where it silently wraps around
+        vmin, vmax = float(vmin), float(vmax)
 
         # subtract vmin
         values = np.subtract(values, vmin)
@@ -83,6 +86,7 @@ class BaseInterval(ABC):
             The transformed values.
         """
         vmin, vmax = self.get_limits(values)
+        vmin, vmax = float(vmin), float(vmax)
 
         values = np.multiply(values, vmax - vmin)
         np.add(values, vmin, out=values)
@@ -145,8 +149,8 @@ class CenteredInterval(BaseInterval):
 
         values = np.asarray(values).ravel()
         values = values[np.isfinite(values)]
-        vmin = np.min(values)
-        vmax = np.max(values)
+        vmin = float(np.min(values))
+        vmax = float(np.max(values))
 
         half_range = np.maximum(np.abs(vmin - self.vcenter), np.abs(vmax - self.vcenter))
 
